@@ -165,4 +165,49 @@ def cutTerminal {α : Type} (ignore : Bool) : List (Ev α) → List (Ev α)
   | .ok a :: rest => .ok a :: cutTerminal ignore rest
   | .error e :: rest => if terminal ignore e then [.error e] else .error e :: cutTerminal ignore rest
 
+/-! ## The lock wrapper of the threaded runner (`_ThreadSafeIterator`, iter_utils.py:835–848)
+
+```
+def __next__(self):
+  with self._lock:
+    return next(self._iterator)
+```
+`piter_fn` puts it around the ONE input that the worker threads of a pipeline share (`num_threads ≥ 1`
+over an un-sharded source).  The wrapper has no state of its own besides the lock: whatever `next` of
+the wrapped iterator does — yield, `StopIteration`, raise — is passed on, and `with` releases the lock
+on every exit.  A call is atomic with respect to the other workers (they block on the lock), so a
+multi-threaded run is a *schedule*: the list of the worker ids in the order in which their calls
+got the lock. -/
+
+/-- the wrapper's state: the wrapped iterator's state, and whether `_lock` is held -/
+structure TS (σ : Type) where
+  inner : σ
+  locked : Bool := false
+
+/-- one `__next__` call that got the lock: `next` of the wrapped iterator, the lock released on the
+way out (`with`), also when `next` raises -/
+def tsNext {α σ : Type} (next : σ → Step α σ) (t : TS σ) : Step α (TS σ) :=
+  match next t.inner with
+  | .yield a s' => .yield a { inner := s', locked := false }
+  | .stop => .stop
+  | .raise e s' => .raise e { inner := s', locked := false }
+
+/-- what the workers receive, in the order of their calls: `sched` lists the worker whose call got
+the lock next.  A worker that received `StopIteration` does not call again (its `for` loop ended);
+calls of the others still find the iterator exhausted. -/
+def tsServe {α σ : Type} (next : σ → Step α σ) : List Nat → TS σ → List (Nat × Ev α)
+  | [], _ => []
+  | w :: sched, t =>
+    match tsNext next t with
+    | .yield a t' => (w, .ok a) :: tsServe next sched t'
+    | .stop => tsServe next sched t
+    | .raise e t' => (w, .error e) :: tsServe next sched t'
+
+/-- is the lock free after the call (or the call answered `StopIteration`, which leaves the state) -/
+def tsFreeAfter {α σ : Type} (next : σ → Step α σ) (t : TS σ) : Bool :=
+  match tsNext next t with
+  | .yield _ t' => !t'.locked
+  | .stop => !t.locked
+  | .raise _ t' => !t'.locked
+
 end MlModel.Iter
